@@ -26,9 +26,9 @@ func (m *symMem) addr(v ssa.Value) string {
 	case *ssa.FieldAddr:
 		if f := fieldOf(x); f != nil {
 			if inner, ok := x.X.(*ssa.FieldAddr); ok {
-				return m.addr(inner) + "." + f.Name() // a field of an embedded / nested struct
+				return m.addr(inner) + "." + roleOf(f) // a field of an embedded / nested struct
 			}
-			return m.sym(x.X) + "." + f.Name()
+			return m.sym(x.X) + "." + roleOf(f)
 		}
 	case *ssa.Alloc:
 		return "cell:" + x.Name()
@@ -130,7 +130,7 @@ func (m *symMem) step(ins ssa.Instruction) {
 		m.env[x] = m.sym(x.Tuple) + "#" + fmt.Sprint(x.Index)
 	case *ssa.Field:
 		if f := fieldOf(x); f != nil {
-			m.env[x] = m.sym(x.X) + "." + f.Name()
+			m.env[x] = m.sym(x.X) + "." + roleOf(f)
 		}
 	case *ssa.Call:
 		m.calls = append(m.calls, x)
